@@ -16,6 +16,7 @@ them from a table and ask for entries it misses.  Queries (tuples):
   ('sliceidx', i, T, I)                       res_slice as used by _apply_unpacking
   ('slice', id, T, I)                         res_slice of a Subscript node
   ('compare', id, T, (Ts...))  ('unop', id, T)  ('binop', id, L, R)  ('listlit', (optTs...))
+  ('attr', id, T)                             visit_Attribute with known parent types (getattr on the types + res_value)
 """
 import ast, builtins, types, typing
 
@@ -160,8 +161,8 @@ def query_sexp(q):
         return [k, q[1], set_sexp(q[2]), set_sexp(q[3])]
     if k == 'compare':
         return ['compare', q[1], set_sexp(q[2]), [set_sexp(a) for a in q[3]]]
-    if k == 'unop':
-        return ['unop', q[1], set_sexp(q[2])]
+    if k in ('unop', 'attr'):
+        return [k, q[1], set_sexp(q[2])]
     if k == 'listlit':
         return ['listlit', [set_sexp(a) for a in q[1]]]
     raise ValueError(q)
@@ -181,8 +182,8 @@ def query_of_sexp(x):
         return (k, int(x[1]), set_of_sexp(x[2]), set_of_sexp(x[3]))
     if k == 'compare':
         return ('compare', int(x[1]), set_of_sexp(x[2]), tuple(set_of_sexp(a) for a in x[3]))
-    if k == 'unop':
-        return ('unop', int(x[1]), set_of_sexp(x[2]))
+    if k in ('unop', 'attr'):
+        return (k, int(x[1]), set_of_sexp(x[2]))
     if k == 'listlit':
         return ('listlit', tuple(set_of_sexp(a) for a in x[1]))
     raise ValueError(x)
@@ -369,6 +370,20 @@ class Rules:
                 if r is not RAISES:
                     out |= r
         return frozenset(out)
+
+    def q_attr(self, nid, T):
+        """What `visit_Attribute` computes when the parent's types are known and no static VALUE is involved: `getattr` of
+        the attribute on every parent type object, one stable non-None static value, then res_value of it."""
+        node = self.nodes.get(nid)
+        if node is None or T is None:
+            return None
+        try:
+            vals = [getattr(to_py(t), node.attr, None) for t in sorted(T, key=_key)]
+        except ValueError:
+            return None
+        if not vals or vals[0] is None or any(v is not vals[0] for v in vals[1:]):
+            return None
+        return self.q_value(type(vals[0]).__name__, repr(vals[0]))
 
     def q_listlit(self, elts):
         return frozenset({'list'})
